@@ -1,8 +1,988 @@
-//! stub (to be implemented)
-#![allow(dead_code, unused_variables)]
-use crate::common::*;
+//! E4 `resp` — bounded-exhaustive byte strings, frames and stream scripts against the real
+//! `Frame::{check,parse}` and `Connection::{read_frame,write_frame}` (DESIGN §5 E4). Serves C07, C08.
+
+use std::cell::RefCell;
+use std::collections::VecDeque;
+use std::future::Future;
+use std::io::Cursor;
+use std::pin::Pin;
+use std::rc::Rc;
+use std::task::{Context, Poll, RawWaker, RawWakerVTable, Waker};
+use std::time::Instant;
+
+use bitcask::net::connection::Connection;
+use bitcask::net::frame::{Error as FErr, Frame};
+use bytes::Bytes;
 use serde_json::{json, Value};
-pub fn worker(job: &Job) -> Shard { Shard::default() }
-pub fn replay(prop: &str, case: &Value) -> Vec<Violation> { vec![] }
-pub fn report_meta(prop: &str, tier: Tier) -> (String, Value, Vec<String>) { (String::new(), json!({}), vec![]) }
-pub fn child_deep(args: &[String]) -> i32 { 0 }
+use tokio::io::{AsyncRead, AsyncWrite, ReadBuf};
+
+use crate::common::*;
+use crate::e2::{in_child, ChildOut};
+use crate::model::{ref_decimal, resp_decode, resp_encode, RErr, RFrame};
+
+// ---------------------------------------------------------------------------------------------
+// calling the subject
+
+#[derive(Clone, Debug, PartialEq, Eq)]
+pub enum PRes {
+    Ok(RFrame, usize),
+    Incomplete,
+    Error(String),
+    Panic(String),
+}
+#[derive(Clone, Debug, PartialEq, Eq)]
+pub enum CRes {
+    Ok(usize),
+    Incomplete,
+    Error(String),
+    Panic(String),
+}
+
+fn to_r(f: &Frame) -> RFrame {
+    match f {
+        Frame::SimpleString(s) => RFrame::Simple(s.as_bytes().to_vec()),
+        Frame::Error(s) => RFrame::Error(s.as_bytes().to_vec()),
+        Frame::Integer(i) => RFrame::Integer(*i),
+        Frame::BulkString(b) => RFrame::Bulk(b.to_vec()),
+        Frame::Null => RFrame::Null,
+        Frame::Array(a) => RFrame::Array(a.iter().map(to_r).collect()),
+    }
+}
+fn from_r(f: &RFrame) -> Frame {
+    match f {
+        RFrame::Simple(s) => Frame::SimpleString(String::from_utf8(s.clone()).unwrap()),
+        RFrame::Error(s) => Frame::Error(String::from_utf8(s.clone()).unwrap()),
+        RFrame::Integer(i) => Frame::Integer(*i),
+        RFrame::Bulk(b) => Frame::BulkString(Bytes::from(b.clone())),
+        RFrame::Null => Frame::Null,
+        RFrame::Array(a) => Frame::Array(a.iter().map(from_r).collect()),
+    }
+}
+
+fn pmsg(e: Box<dyn std::any::Any + Send>) -> String {
+    if let Some(s) = e.downcast_ref::<&str>() {
+        s.to_string()
+    } else if let Some(s) = e.downcast_ref::<String>() {
+        s.clone()
+    } else {
+        "?".into()
+    }
+}
+
+pub fn call_parse(s: &[u8]) -> PRes {
+    match std::panic::catch_unwind(|| {
+        let mut cur = Cursor::new(s);
+        Frame::parse(&mut cur).map(|f| (to_r(&f), cur.position() as usize))
+    }) {
+        Ok(Ok((f, n))) => PRes::Ok(f, n),
+        Ok(Err(FErr::Incomplete)) => PRes::Incomplete,
+        Ok(Err(e)) => PRes::Error(format!("{:?}", e).chars().take(60).collect()),
+        Err(e) => PRes::Panic(pmsg(e)),
+    }
+}
+pub fn call_check(s: &[u8]) -> CRes {
+    match std::panic::catch_unwind(|| {
+        let mut cur = Cursor::new(s);
+        Frame::check(&mut cur).map(|_| cur.position() as usize)
+    }) {
+        Ok(Ok(n)) => CRes::Ok(n),
+        Ok(Err(FErr::Incomplete)) => CRes::Incomplete,
+        Ok(Err(e)) => CRes::Error(format!("{:?}", e).chars().take(60).collect()),
+        Err(e) => CRes::Panic(pmsg(e)),
+    }
+}
+
+/// The C07 oracle on one input. Returns (class, message) per violation.
+pub fn judge_input(s: &[u8], check_prefixes: bool) -> Vec<(String, String)> {
+    let mut out = vec![];
+    let c = call_check(s);
+    let p = call_parse(s);
+    if let CRes::Panic(m) = &c {
+        out.push(("check-panics".to_string(), m.clone()));
+    }
+    if let PRes::Panic(m) = &p {
+        out.push(("parse-panics".to_string(), m.clone()));
+    }
+    if let CRes::Ok(n) = c {
+        if n > s.len() {
+            out.push(("check-accepts-more-bytes-than-given".into(), format!("check consumed {} of {}", n, s.len())));
+        } else {
+            match call_parse(&s[..n]) {
+                PRes::Ok(_, m) if m != n => out.push(("check-length-differs-from-parse-length".into(), format!("check accepts {} bytes, parse of those consumes {}", n, m))),
+                PRes::Panic(m) => out.push(("parse-after-check-panics".into(), m)),
+                _ => {}
+            }
+        }
+    }
+    if let PRes::Ok(f, n) = &p {
+        // numbers exact, out-of-range rejected: the independent decoder must agree on frame and length
+        match resp_decode(s, 0) {
+            Ok((rf, rn)) => {
+                if &rf != f || rn != *n {
+                    out.push(("number-or-frame-misread".into(), format!("parse gives {:?} ({} bytes), reference gives {:?} ({} bytes)", f, n, rf, rn)));
+                }
+            }
+            Err(RErr::Bad) => out.push(("accepts-what-reference-rejects".into(), format!("parse gives {:?} ({} bytes); reference rejects (out-of-range or malformed number?)", f, n))),
+            Err(RErr::Incomplete) => out.push(("accepts-incomplete-input".into(), format!("parse gives {:?} ({} bytes); reference says incomplete", f, n))),
+        }
+        if check_prefixes && *n == s.len() {
+            for k in 0..s.len() {
+                if let PRes::Ok(f2, _) = call_parse(&s[..k]) {
+                    if &f2 == f {
+                        out.push(("strict-prefix-accepted-with-the-same-frame".into(), format!("prefix of {} bytes parses to the same frame", k)));
+                    }
+                }
+            }
+        }
+    }
+    out
+}
+
+// ---------------------------------------------------------------------------------------------
+// C07 enumerations
+
+pub const ALPHA: &[u8] = b"+-:$*019\r\na\xff";
+
+fn string_at(len: usize, mut idx: u64) -> Vec<u8> {
+    let a = ALPHA.len() as u64;
+    let mut s = vec![0u8; len];
+    for i in (0..len).rev() {
+        s[i] = ALPHA[(idx % a) as usize];
+        idx /= a;
+    }
+    s
+}
+
+/// Digit strings of the number grid.
+fn digit_strings() -> Vec<String> {
+    let mut v: Vec<String> = vec![];
+    for dc in 1..=21usize {
+        v.push("0".repeat(dc));
+        v.push(format!("{}1", "0".repeat(dc - 1)));
+        v.push("9".repeat(dc));
+        v.push(format!("1{}", "0".repeat(dc - 1)));
+    }
+    let specials: [i128; 12] = [0, 1, 7, 42, i64::MAX as i128 - 1, i64::MAX as i128, i64::MAX as i128 + 1, -(i64::MIN as i128), -(i64::MIN as i128) + 1, 10i128.pow(19), 1i128 << 64, 92233720368547758080];
+    for s in specials {
+        let t = s.to_string();
+        v.push(t.clone());
+        for pad in [1usize, 3] {
+            if t.len() + pad <= 22 {
+                v.push(format!("{}{}", "0".repeat(pad), t));
+            }
+        }
+    }
+    v.sort();
+    v.dedup();
+    v
+}
+
+/// Messages of the number grid: (bytes, description).
+fn number_grid() -> Vec<(Vec<u8>, String)> {
+    let mut out = vec![];
+    let digits = digit_strings();
+    for sign in ["", "+", "-"] {
+        for d in &digits {
+            let num = format!("{}{}", sign, d);
+            let val: Option<i128> = num.trim_start_matches('+').parse::<i128>().ok();
+            // carriers
+            let mut carriers: Vec<(Vec<u8>, &str)> = vec![(format!(":{}\r\n", num).into_bytes(), "integer")];
+            if let Some(v) = val {
+                if (0..=64).contains(&v) {
+                    let mut m = format!("${}\r\n", num).into_bytes();
+                    m.extend(std::iter::repeat(b'x').take(v as usize));
+                    m.extend_from_slice(b"\r\n");
+                    carriers.push((m, "bulk-with-payload"));
+                    let mut a = format!("*{}\r\n", num).into_bytes();
+                    for _ in 0..v {
+                        a.extend_from_slice(b":1\r\n");
+                    }
+                    carriers.push((a, "array-with-elements"));
+                } else {
+                    carriers.push((format!("${}\r\n", num).into_bytes(), "bulk-length-only"));
+                    carriers.push((format!("*{}\r\n", num).into_bytes(), "array-length-only"));
+                }
+            } else {
+                carriers.push((format!("${}\r\n", num).into_bytes(), "bulk-length-only"));
+                carriers.push((format!("*{}\r\n", num).into_bytes(), "array-length-only"));
+            }
+            for (m, what) in carriers {
+                out.push((m.clone(), format!("{} {}", what, num)));
+                // nested one level inside an array after a filler bulk string of k bytes: moves the
+                // digits across every absolute offset up to ~50
+                for k in 0..=40usize {
+                    let mut n = format!("*2\r\n${}\r\n", k).into_bytes();
+                    n.extend(std::iter::repeat(b'f').take(k));
+                    n.extend_from_slice(b"\r\n");
+                    n.extend_from_slice(&m);
+                    out.push((n, format!("{} {} after a {}-byte filler", what, num, k)));
+                }
+            }
+        }
+    }
+    out
+}
+
+/// The well-formed requests of the C06 space (used for truncation points here and by E5).
+pub fn request_set() -> Vec<Vec<u8>> {
+    use crate::model::cmd;
+    vec![
+        cmd(&[b"SET", b"a", b"x"]),
+        cmd(&[b"SET", b"b", b""]),
+        cmd(&[b"SET", b"a", b"a\r\nb\0"]),
+        cmd(&[b"GET", b"a"]),
+        cmd(&[b"GET", "é".as_bytes()]),
+        cmd(&[b"DEL", b"a"]),
+        cmd(&[b"DEL", b"a", b"b"]),
+        cmd(&[b"DEL", b"a", b"a"]),
+        b"+OK\r\n".to_vec(),
+        b"-ERR x\r\n".to_vec(),
+        b":-12\r\n".to_vec(),
+        b"$-1\r\n".to_vec(),
+        b"*0\r\n".to_vec(),
+        b"*2\r\n*1\r\n:1\r\n$-1\r\n".to_vec(),
+    ]
+}
+
+fn viol(sh: &mut Shard, prop: &str, class: &str, msg: String, input: &[u8], what: &str) {
+    let shown: Vec<u8> = input.iter().cloned().take(200).collect();
+    sh.violate(Violation { class: format!("{}:{}", prop, classify(class, input)), msg: format!("{} | input {} ({} bytes) {}", msg, hex_long(&shown), input.len(), what), case: json!({"engine": "resp", "kind": "input", "bytes": shown, "len": input.len(), "what": what}) });
+}
+
+/// Root-cause refinement used for known findings (none registered at the moment).
+fn classify(class: &str, _input: &[u8]) -> String {
+    class.to_string()
+}
+
+fn hex_long(b: &[u8]) -> String {
+    format!("{:?}", String::from_utf8_lossy(b))
+}
+
+fn c07_strings(job: &Job, sh: &mut Shard, t0: Instant) {
+    let l = job.tier.pick(6usize, 7usize);
+    for len in 0..=l {
+        let total = (ALPHA.len() as u64).pow(len as u32);
+        let mut idx = job.shard as u64;
+        let mut accepted = 0u64;
+        while idx < total {
+            if idx % 100_000 == job.shard as u64 && t0.elapsed().as_secs() > job.deadline_s {
+                sh.capped = true;
+                sh.notes.insert(format!("time cap hit at length {} (lengths below are complete)", len));
+                return;
+            }
+            let s = string_at(len, idx);
+            sh.evaluations += 1;
+            sh.transitions += 3;
+            let vs = judge_input(&s, true);
+            let c = call_check(&s);
+            if let CRes::Ok(_) = c {
+                accepted += 1;
+                sh.nontrivial.insert(fnv(&s));
+            }
+            let p = call_parse(&s);
+            let sig = format!(
+                "check={} parse={}",
+                match &c { CRes::Ok(_) => "ok".to_string(), CRes::Incomplete => "incomplete".into(), CRes::Error(e) => e.split('(').next().unwrap_or("").to_string(), CRes::Panic(_) => "PANIC".into() },
+                match &p { PRes::Ok(f, _) => format!("ok:{}", match f { RFrame::Simple(_) => "simple", RFrame::Error(_) => "error", RFrame::Integer(_) => "integer", RFrame::Bulk(_) => "bulk", RFrame::Null => "null", RFrame::Array(_) => "array" }), PRes::Incomplete => "incomplete".into(), PRes::Error(e) => e.split('(').next().unwrap_or("").to_string(), PRes::Panic(_) => "PANIC".into() }
+            );
+            sh.states.insert(fnv(format!("{}|{:?}", sig, match &p { PRes::Ok(f, n) => format!("{:?}{}", f, n), _ => String::new() }).as_bytes()));
+            sh.outcome(sig);
+            for (class, msg) in vs {
+                viol(sh, "C07", &class, msg, &s, "exhaustive string");
+            }
+            idx += job.nshards as u64;
+        }
+        sh.count(&format!("strings-len-{}", len), (total + job.nshards as u64 - 1 - job.shard as u64) / job.nshards as u64);
+        sh.count("strings-accepted-by-check", accepted);
+    }
+}
+
+fn c07_numbers(job: &Job, sh: &mut Shard) {
+    let grid = number_grid();
+    let mut n = 0u64;
+    for (i, (m, what)) in grid.iter().enumerate() {
+        if i % job.nshards != job.shard {
+            continue;
+        }
+        n += 1;
+        sh.evaluations += 1;
+        sh.transitions += 3;
+        // a declared array length that is large may make parse ask for an absurd allocation and
+        // abort: evaluate those messages in a forked child (the death is the observation)
+        let risky = what.starts_with("array-length-only");
+        if risky {
+            let m2 = m.clone();
+            let r = in_child(
+                move || {
+                    let mut v = judge_input(&m2, false);
+                    for k in 0..m2.len() {
+                        if let CRes::Panic(e) = call_check(&m2[..k]) {
+                            v.push(("check-panics".into(), format!("truncation at {}: {}", k, e)));
+                        }
+                        if let PRes::Panic(e) = call_parse(&m2[..k]) {
+                            v.push(("parse-panics".into(), format!("truncation at {}: {}", k, e)));
+                        }
+                    }
+                    serde_json::to_vec(&v).unwrap()
+                },
+                20_000,
+            );
+            match r {
+                ChildOut::Ok(b) => {
+                    let v: Vec<(String, String)> = serde_json::from_slice(&b).unwrap_or_default();
+                    for (class, msg) in v {
+                        viol(sh, "C07", &class, msg, m, what);
+                    }
+                }
+                ChildOut::Died(how) => viol(sh, "C07", "terminates-the-process[huge-declared-length]", format!("child process died: {}", how), m, what),
+                ChildOut::Timeout => viol(sh, "C07", "does-not-terminate", "no result within 20 s".into(), m, what),
+            }
+            sh.nontrivial.insert(fnv(m));
+            continue;
+        }
+        for (class, msg) in judge_input(m, false) {
+            viol(sh, "C07", &class, msg, m, what);
+        }
+        // every truncation point: never a panic, never the full frame
+        let full = call_parse(m);
+        for k in 0..m.len() {
+            sh.evaluations += 1;
+            let pre = &m[..k];
+            let c = call_check(pre);
+            let p = call_parse(pre);
+            if let CRes::Panic(e) = &c {
+                viol(sh, "C07", "check-panics", e.clone(), pre, &format!("truncation at {} of {}", k, what));
+            }
+            if let PRes::Panic(e) = &p {
+                viol(sh, "C07", "parse-panics", e.clone(), pre, &format!("truncation at {} of {}", k, what));
+            }
+            if let (PRes::Ok(f, _), PRes::Ok(ff, nn)) = (&p, &full) {
+                if f == ff && *nn == m.len() {
+                    viol(sh, "C07", "strict-prefix-accepted-with-the-same-frame", format!("prefix of {} bytes parses to {:?}", k, f), pre, what);
+                }
+            }
+        }
+        sh.nontrivial.insert(fnv(m));
+        sh.states.insert(fnv(format!("{:?}", full).as_bytes()));
+    }
+    sh.count("number-grid-messages", n);
+    // truncations of the request set
+    if job.shard == 0 {
+        for m in request_set() {
+            for k in 0..=m.len() {
+                sh.evaluations += 1;
+                for (class, msg) in judge_input(&m[..k], false) {
+                    viol(sh, "C07", &class, msg, &m[..k], "truncation of a request");
+                }
+            }
+        }
+    }
+}
+
+/// Deep nesting and huge declared lengths: each in a forked child, on the main stack (8 MiB) and on
+/// a 2 MiB thread (tokio's worker stack size); the child's death is the observation.
+fn c07_deep(job: &Job, sh: &mut Shard) {
+    let mut cases: Vec<(Vec<u8>, String)> = vec![];
+    for d in [1usize, 2, 8, 64, 1000, 10_000, 100_000, 1_000_000] {
+        let mut m = b"*1\r\n".repeat(d);
+        cases.push((m.clone(), format!("{} nested '*1' with no element", d)));
+        m.extend_from_slice(b":1\r\n");
+        cases.push((m, format!("{} nested '*1' around ':1'", d)));
+    }
+    for l in ["1000000000000", "9223372036854775807", "4294967296", "2147483648", "18446744073709551615", "1152921504606846976"] {
+        cases.push((format!("*{}\r\n", l).into_bytes(), format!("array of declared length {} with no element", l)));
+        cases.push((format!("*{}\r\n:1\r\n", l).into_bytes(), format!("array of declared length {} with one element", l)));
+        cases.push((format!("${}\r\n", l).into_bytes(), format!("bulk string of declared length {} with no payload", l)));
+        cases.push((format!("${}\r\nab\r\n", l).into_bytes(), format!("bulk string of declared length {} with 2 bytes", l)));
+        cases.push((format!("*2\r\n${}\r\n", l).into_bytes(), format!("array whose first element declares length {}", l)));
+    }
+    for (i, (m, what)) in cases.iter().enumerate() {
+        if i % job.nshards != job.shard {
+            continue;
+        }
+        for (stack, sname) in [(0usize, "main stack (8 MiB)"), (2 * 1024 * 1024, "2 MiB thread stack (tokio worker)")] {
+            for mode in ["check", "parse", "check-then-parse"] {
+                sh.evaluations += 1;
+                sh.transitions += 1;
+                let m2 = m.clone();
+                let mode2 = mode.to_string();
+                let r = in_child(
+                    move || {
+                        let body = move || -> Vec<u8> {
+                            let r = match mode2.as_str() {
+                                "check" => format!("{:?}", call_check(&m2)),
+                                "parse" => {
+                                    let r = call_parse(&m2);
+                                    match r {
+                                        PRes::Ok(_, n) => format!("Ok({})", n),
+                                        o => format!("{:?}", o),
+                                    }
+                                }
+                                _ => match call_check(&m2) {
+                                    CRes::Ok(n) => match call_parse(&m2[..n]) {
+                                        PRes::Ok(_, n) => format!("Ok({})", n),
+                                        o => format!("{:?}", o),
+                                    },
+                                    o => format!("{:?}", o),
+                                },
+                            };
+                            r.into_bytes()
+                        };
+                        if stack == 0 {
+                            body()
+                        } else {
+                            std::thread::Builder::new().stack_size(stack).spawn(body).unwrap().join().unwrap_or_else(|_| b"Panic(thread)".to_vec())
+                        }
+                    },
+                    30_000,
+                );
+                let (class, msg) = match r {
+                    ChildOut::Ok(b) => {
+                        let s = String::from_utf8_lossy(&b).to_string();
+                        sh.outcome(format!("{}:{}", mode, s.split('(').next().unwrap_or("")));
+                        sh.states.insert(fnv(format!("{}{}", mode, s).as_bytes()));
+                        if s.starts_with("Panic") {
+                            (Some("panics-on-structured-input"), s)
+                        } else {
+                            (None, s)
+                        }
+                    }
+                    ChildOut::Died(how) => {
+                        sh.outcome(format!("{}:process-died", mode));
+                        (Some("terminates-the-process"), format!("child process died: {}", how))
+                    }
+                    ChildOut::Timeout => (Some("does-not-terminate"), "no result within 30 s".to_string()),
+                };
+                sh.nontrivial.insert(fnv(format!("{}{}{}", what, sname, mode).as_bytes()));
+                if let Some(c) = class {
+                    let root = if what.contains("nested") { "deep-nesting" } else { "huge-declared-length" };
+                    sh.violate(Violation { class: format!("C07:{}[{}]", c, root), msg: format!("{} | {} of {} on the {}", msg, mode, what, sname), case: json!({"engine": "resp", "kind": "deep", "what": what, "mode": mode, "stack": stack, "len": m.len()}) });
+                }
+            }
+        }
+    }
+}
+
+// ---------------------------------------------------------------------------------------------
+// C08: Connection over a scripted stream
+
+#[derive(Clone, Debug, PartialEq, Eq)]
+pub enum SEv {
+    Data(Vec<u8>),
+    Pending,
+    Eof,
+    IoErr,
+}
+
+#[derive(Default)]
+pub struct SState {
+    pub script: VecDeque<SEv>,
+    pub written: Vec<u8>,
+    /// the script ran dry: the stream stays pending for ever
+    pub starved: bool,
+}
+
+#[derive(Clone)]
+pub struct ScriptStream(pub Rc<RefCell<SState>>);
+
+impl AsyncRead for ScriptStream {
+    fn poll_read(self: Pin<&mut Self>, _cx: &mut Context<'_>, buf: &mut ReadBuf<'_>) -> Poll<std::io::Result<()>> {
+        let mut st = self.0.borrow_mut();
+        match st.script.pop_front() {
+            None => {
+                st.starved = true;
+                Poll::Pending
+            }
+            Some(SEv::Pending) => Poll::Pending,
+            Some(SEv::Eof) => {
+                st.script.push_front(SEv::Eof);
+                Poll::Ready(Ok(()))
+            }
+            Some(SEv::IoErr) => Poll::Ready(Err(std::io::Error::new(std::io::ErrorKind::Other, "scripted error"))),
+            Some(SEv::Data(d)) => {
+                let n = d.len().min(buf.remaining());
+                buf.put_slice(&d[..n]);
+                if n < d.len() {
+                    st.script.push_front(SEv::Data(d[n..].to_vec()));
+                }
+                Poll::Ready(Ok(()))
+            }
+        }
+    }
+}
+impl AsyncWrite for ScriptStream {
+    fn poll_write(self: Pin<&mut Self>, _cx: &mut Context<'_>, buf: &[u8]) -> Poll<std::io::Result<usize>> {
+        self.0.borrow_mut().written.extend_from_slice(buf);
+        Poll::Ready(Ok(buf.len()))
+    }
+    fn poll_flush(self: Pin<&mut Self>, _cx: &mut Context<'_>) -> Poll<std::io::Result<()>> {
+        Poll::Ready(Ok(()))
+    }
+    fn poll_shutdown(self: Pin<&mut Self>, _cx: &mut Context<'_>) -> Poll<std::io::Result<()>> {
+        Poll::Ready(Ok(()))
+    }
+}
+
+fn noop_waker() -> Waker {
+    fn clone(_: *const ()) -> RawWaker {
+        RawWaker::new(std::ptr::null(), &VT)
+    }
+    fn noop(_: *const ()) {}
+    static VT: RawWakerVTable = RawWakerVTable::new(clone, noop, noop, noop);
+    unsafe { Waker::from_raw(RawWaker::new(std::ptr::null(), &VT)) }
+}
+
+/// Poll `f` until it is ready, or until the scripted stream has run dry (= pending for ever).
+fn drive<T>(st: &Rc<RefCell<SState>>, mut f: Pin<&mut dyn Future<Output = T>>) -> Option<T> {
+    let w = noop_waker();
+    let mut cx = Context::from_waker(&w);
+    for _ in 0..1_000_000 {
+        match f.as_mut().poll(&mut cx) {
+            Poll::Ready(v) => return Some(v),
+            Poll::Pending => {
+                if st.borrow().starved {
+                    return None;
+                }
+            }
+        }
+    }
+    panic!("scripted future did not finish")
+}
+
+#[derive(Clone, Debug, PartialEq, Eq)]
+pub enum ReadEnd {
+    /// `read_frame` returned `Ok(None)`: clean end of stream
+    CleanEof,
+    /// `read_frame` returned an error
+    Error(String),
+    /// the stream ran dry while `read_frame` was waiting: incomplete
+    Pending,
+    Panic(String),
+}
+
+/// Feed `script` to a real `Connection` and read frames until the stream ends / errs / runs dry.
+pub fn read_all(mut script: Vec<SEv>) -> (Vec<RFrame>, ReadEnd) {
+    // a zero-byte answer means end of stream to AsyncRead: an empty segment is no segment
+    script.retain(|e| !matches!(e, SEv::Data(d) if d.is_empty()));
+    let r = std::panic::catch_unwind(std::panic::AssertUnwindSafe(|| {
+        let st = Rc::new(RefCell::new(SState { script: script.into(), ..Default::default() }));
+        let mut conn = Connection::new(ScriptStream(st.clone()));
+        let mut frames = vec![];
+        loop {
+            let mut fut = Box::pin(conn.read_frame());
+            let r = drive(&st, fut.as_mut());
+            drop(fut);
+            match r {
+                None => return (frames, ReadEnd::Pending),
+                Some(Ok(Some(f))) => frames.push(to_r(&f)),
+                Some(Ok(None)) => return (frames, ReadEnd::CleanEof),
+                Some(Err(e)) => return (frames, ReadEnd::Error(e.to_string())),
+            }
+            if frames.len() > 10_000 {
+                return (frames, ReadEnd::Error("too many frames".into()));
+            }
+        }
+    }));
+    match r {
+        Ok(x) => x,
+        Err(e) => (vec![], ReadEnd::Panic(pmsg(e))),
+    }
+}
+
+/// Encode frames with the real `write_frame`.
+pub fn write_all(frames: &[RFrame]) -> Result<Vec<u8>, String> {
+    std::panic::catch_unwind(std::panic::AssertUnwindSafe(|| {
+        let st = Rc::new(RefCell::new(SState::default()));
+        let mut conn = Connection::new(ScriptStream(st.clone()));
+        for f in frames {
+            let fr = from_r(f);
+            let mut fut = Box::pin(conn.write_frame(&fr));
+            match drive(&st, fut.as_mut()) {
+                Some(Ok(())) => {}
+                Some(Err(e)) => return Err(format!("write_frame error: {}", e)),
+                None => return Err("write_frame pending for ever".into()),
+            }
+        }
+        let w = st.borrow().written.clone();
+        Ok(w)
+    }))
+    .unwrap_or_else(|e| Err(format!("PANIC in write_frame: {}", pmsg(e))))
+}
+
+fn frame_universe(tier: Tier) -> Vec<RFrame> {
+    let mut v = vec![];
+    for s in ["", "OK", "a b", "\x7f", "é"] {
+        v.push(RFrame::Simple(s.as_bytes().to_vec()));
+        v.push(RFrame::Error(s.as_bytes().to_vec()));
+    }
+    for i in [0i64, 1, -1, 10, -10, 9, 99, i64::MAX, i64::MIN, i64::MIN + 1, 100_000_000_000_000_000, 1_000_000_000_000_000_000, -1_000_000_000_000_000_000, 123456789012345678] {
+        v.push(RFrame::Integer(i));
+    }
+    let bulks: Vec<Vec<u8>> = vec![vec![], b"x".to_vec(), b"\r\n".to_vec(), b"\r".to_vec(), b"\n".to_vec(), b"a\r\nb".to_vec(), vec![0, 0xff], vec![b'y'; 20], vec![b'z'; 8192], vec![b'w'; 8193], b"$5\r\n".to_vec(), b"*1\r\n:".to_vec()];
+    for b in bulks {
+        v.push(RFrame::Bulk(b));
+    }
+    v.push(RFrame::Null);
+    // arrays of non-array elements
+    let elems = vec![RFrame::Simple(b"OK".to_vec()), RFrame::Integer(-1), RFrame::Bulk(b"x".to_vec()), RFrame::Bulk(b"\r\n".to_vec()), RFrame::Null, RFrame::Error(b"E".to_vec()), RFrame::Bulk(vec![])];
+    v.push(RFrame::Array(vec![]));
+    let maxlen = tier.pick(3, 4);
+    let mut cur: Vec<Vec<RFrame>> = vec![vec![]];
+    for _ in 0..maxlen {
+        let mut next = vec![];
+        for a in &cur {
+            for e in &elems {
+                let mut a2 = a.clone();
+                a2.push(e.clone());
+                next.push(a2);
+            }
+        }
+        for a in &next {
+            v.push(RFrame::Array(a.clone()));
+        }
+        cur = next;
+    }
+    v
+}
+
+fn sequences(tier: Tier) -> Vec<Vec<RFrame>> {
+    let uni = frame_universe(tier);
+    let mut seqs: Vec<Vec<RFrame>> = uni.iter().map(|f| vec![f.clone()]).collect();
+    // sequences of 2 (and 3) frames from a reduced set
+    let small = vec![RFrame::Simple(b"OK".to_vec()), RFrame::Integer(-12), RFrame::Bulk(b"\r\n".to_vec()), RFrame::Null, RFrame::Array(vec![RFrame::Bulk(b"GET".to_vec()), RFrame::Bulk(b"k".to_vec())]), RFrame::Bulk(vec![]), RFrame::Error(b"".to_vec())];
+    for a in &small {
+        for b in &small {
+            seqs.push(vec![a.clone(), b.clone()]);
+            for c in &small {
+                seqs.push(vec![a.clone(), b.clone(), c.clone()]);
+                if tier == Tier::Thorough {
+                    for d in &small {
+                        seqs.push(vec![a.clone(), b.clone(), c.clone(), d.clone()]);
+                    }
+                }
+            }
+        }
+    }
+    seqs
+}
+
+fn cut_sets(n: usize, tier: Tier) -> Vec<Vec<usize>> {
+    // positions 1..n-1 are possible cuts
+    let mut out = vec![];
+    let exhaustive_limit = tier.pick(14, 17);
+    if n <= 1 {
+        return vec![vec![]];
+    }
+    if n <= exhaustive_limit {
+        for mask in 0u32..(1u32 << (n - 1)) {
+            out.push((1..n).filter(|i| mask & (1 << (i - 1)) != 0).collect());
+        }
+    } else {
+        out.push(vec![]);
+        out.push((1..n).collect());
+        let pos: Vec<usize> = if n <= 80 { (1..n).collect() } else { (1..40).chain((n / 2 - 3)..(n / 2 + 3)).chain((n - 40)..n).collect() };
+        for &a in &pos {
+            out.push(vec![a]);
+        }
+        let pos2: Vec<usize> = if n <= 40 { (1..n).collect() } else { (1..14).chain((n - 14)..n).collect() };
+        for (i, &a) in pos2.iter().enumerate() {
+            for &b in &pos2[i + 1..] {
+                out.push(vec![a, b]);
+            }
+        }
+    }
+    out
+}
+
+fn segments(bytes: &[u8], cuts: &[usize]) -> Vec<Vec<u8>> {
+    let mut v = vec![];
+    let mut last = 0;
+    for &c in cuts {
+        v.push(bytes[last..c].to_vec());
+        last = c;
+    }
+    v.push(bytes[last..].to_vec());
+    v
+}
+
+fn c08(job: &Job, sh: &mut Shard, t0: Instant) {
+    let seqs = sequences(job.tier);
+    let mut viol8 = |sh: &mut Shard, class: &str, msg: String, frames: &[RFrame], extra: Value| {
+        sh.violate(Violation { class: format!("C08:{}", class), msg: format!("{} | frames {}", msg, show_frames(frames)), case: json!({"engine": "resp", "kind": "roundtrip", "frames": frames.iter().map(frame_json).collect::<Vec<_>>(), "at": extra}) });
+    };
+    for (i, frames) in seqs.iter().enumerate() {
+        if i % job.nshards != job.shard {
+            continue;
+        }
+        if t0.elapsed().as_secs() > job.deadline_s {
+            sh.capped = true;
+            sh.notes.insert(format!("time cap hit after {} of {} frame sequences", i, seqs.len()));
+            break;
+        }
+        sh.nontrivial.insert(fnv(format!("{:?}", frames).as_bytes()));
+        // encoding by the real writer equals the reference encoding
+        let enc = match write_all(frames) {
+            Ok(e) => e,
+            Err(m) => {
+                viol8(sh, if m.contains("PANIC") { "write-panics" } else { "write-fails" }, m, frames, json!(null));
+                continue;
+            }
+        };
+        let mut want = vec![];
+        for f in frames {
+            resp_encode(f, &mut want);
+        }
+        sh.evaluations += 1;
+        sh.transitions += frames.len() as u64;
+        if enc != want {
+            viol8(sh, "encoding-differs-from-reference", format!("wrote {:?}, reference {:?}", String::from_utf8_lossy(&enc[..enc.len().min(80)]), String::from_utf8_lossy(&want[..want.len().min(80)])), frames, json!(null));
+            continue;
+        }
+        let n = enc.len();
+        // every segmentation, then EOF: the frames, then a clean end
+        for cuts in cut_sets(n, job.tier) {
+            let mut script: Vec<SEv> = segments(&enc, &cuts).into_iter().map(SEv::Data).collect();
+            script.push(SEv::Eof);
+            sh.evaluations += 1;
+            sh.transitions += script.len() as u64;
+            let (got, end) = read_all(script);
+            // delivery states: (frame sequence, bytes delivered so far)
+            for c in &cuts {
+                sh.states.insert(fnv(format!("{}|{}", i, c).as_bytes()));
+            }
+            sh.outcome(format!("{} frames then {:?}", got.len(), end));
+            if &got != frames || end != ReadEnd::CleanEof {
+                let class = match &end {
+                    ReadEnd::Panic(_) => "read-panics",
+                    _ if &got != frames => "decoded-frames-differ",
+                    _ => "full-stream-not-a-clean-end",
+                };
+                viol8(sh, class, format!("cuts {:?}: decoded {} then {:?}", cuts, show_frames(&got), end), frames, json!({"cuts": cuts}));
+                break;
+            }
+        }
+        // Pending insertions (<= 2) between the segments of a few segmentations
+        let few: Vec<Vec<usize>> = if n > 2 { vec![vec![], vec![1], vec![n / 2], vec![1, n - 1], (1..n.min(12)).collect()] } else { vec![vec![]] };
+        for cuts in few {
+            let segs = segments(&enc, &cuts);
+            let slots = segs.len() + 1;
+            for a in 0..slots {
+                for b2 in a..slots {
+                    let mut script = vec![];
+                    for (j, s) in segs.iter().enumerate() {
+                        if j == a {
+                            script.push(SEv::Pending);
+                        }
+                        if j == b2 {
+                            script.push(SEv::Pending);
+                        }
+                        script.push(SEv::Data(s.clone()));
+                    }
+                    if a == segs.len() {
+                        script.push(SEv::Pending);
+                    }
+                    if b2 == segs.len() {
+                        script.push(SEv::Pending);
+                    }
+                    script.push(SEv::Eof);
+                    sh.evaluations += 1;
+                    let (got, end) = read_all(script);
+                    if &got != frames || end != ReadEnd::CleanEof {
+                        viol8(sh, if matches!(end, ReadEnd::Panic(_)) { "read-panics" } else { "pending-changes-the-result" }, format!("cuts {:?} pending before segments {} and {}: decoded {} then {:?}", cuts, a, b2, show_frames(&got), end), frames, json!({"cuts": cuts, "pending": [a, b2]}));
+                    }
+                }
+            }
+        }
+        // every strict prefix: (i) then pending for ever = incomplete, (ii) then EOF = error unless at a frame boundary
+        let mut boundaries = vec![0usize];
+        {
+            let mut p = 0;
+            for f in frames {
+                let mut e = vec![];
+                resp_encode(f, &mut e);
+                p += e.len();
+                boundaries.push(p);
+            }
+        }
+        let prefix_points: Vec<usize> = if n <= 200 { (0..n).collect() } else { (0..60).chain((n - 60)..n).collect() };
+        for k in prefix_points {
+            let complete: Vec<RFrame> = boundaries.iter().zip(frames.iter()).filter(|(b, _)| **b < k || (**b == 0 && k > 0)).zip(boundaries.iter().skip(1)).filter(|(_, e)| **e <= k).map(|((_, f), _)| f.clone()).collect();
+            let at_boundary = boundaries.contains(&k);
+            for whole in [true, false] {
+                let data: Vec<SEv> = if whole { vec![SEv::Data(enc[..k].to_vec())] } else { enc[..k].iter().map(|b| SEv::Data(vec![*b])).collect() };
+                // (i) pending for ever
+                sh.evaluations += 1;
+                let (got, end) = read_all(data.clone());
+                sh.outcome(format!("prefix: {} frames then {:?}", got.len(), match &end { ReadEnd::Error(_) => ReadEnd::Error(String::new()), o => o.clone() }));
+                if got != complete || end != ReadEnd::Pending {
+                    let class = match &end {
+                        ReadEnd::Panic(_) => "strict-prefix-panics",
+                        ReadEnd::Error(_) => "strict-prefix-reported-as-error",
+                        ReadEnd::CleanEof => "strict-prefix-reported-as-clean-end",
+                        ReadEnd::Pending => "strict-prefix-yields-wrong-frames",
+                    };
+                    viol8(sh, class, format!("prefix of {} bytes ({}) then silence: decoded {} then {:?}; expected {} then incomplete", k, if whole { "whole" } else { "byte-wise" }, show_frames(&got), end, show_frames(&complete)), frames, json!({"prefix": k, "whole": whole, "then": "pending"}));
+                }
+                // (ii) EOF
+                sh.evaluations += 1;
+                let mut s2 = data;
+                s2.push(SEv::Eof);
+                let (got, end) = read_all(s2);
+                let ok = got == complete && if at_boundary { end == ReadEnd::CleanEof } else { matches!(end, ReadEnd::Error(_)) };
+                if !ok {
+                    let class = match &end {
+                        ReadEnd::Panic(_) => "strict-prefix-panics",
+                        ReadEnd::CleanEof if !at_boundary => "stream-ending-inside-a-frame-reported-as-clean-end",
+                        ReadEnd::Error(_) if at_boundary => "clean-end-reported-as-error",
+                        _ => "strict-prefix-yields-wrong-frames",
+                    };
+                    viol8(sh, class, format!("prefix of {} bytes then EOF: decoded {} then {:?}", k, show_frames(&got), end), frames, json!({"prefix": k, "whole": whole, "then": "eof"}));
+                }
+            }
+        }
+        if sh.samples.len() < 2 {
+            sh.samples.push(json!({"frames": show_frames(frames), "encoding_len": n}));
+        }
+    }
+}
+
+fn show_frames(f: &[RFrame]) -> String {
+    let s = format!("{:?}", f);
+    if s.len() > 300 {
+        format!("{}… ({} chars)", &s[..300], s.len())
+    } else {
+        s
+    }
+}
+fn frame_json(f: &RFrame) -> Value {
+    match f {
+        RFrame::Simple(s) => json!({"simple": s}),
+        RFrame::Error(s) => json!({"error": s}),
+        RFrame::Integer(i) => json!({"integer": i}),
+        RFrame::Bulk(b) => json!({"bulk": b}),
+        RFrame::Null => json!("null"),
+        RFrame::Array(a) => json!({"array": a.iter().map(frame_json).collect::<Vec<_>>()}),
+    }
+}
+fn frame_from_json(v: &Value) -> Option<RFrame> {
+    let bytes = |x: &Value| -> Option<Vec<u8>> { x.as_array().map(|a| a.iter().map(|b| b.as_u64().unwrap_or(0) as u8).collect()) };
+    if v == "null" {
+        return Some(RFrame::Null);
+    }
+    if let Some(x) = v.get("simple") {
+        return Some(RFrame::Simple(bytes(x)?));
+    }
+    if let Some(x) = v.get("error") {
+        return Some(RFrame::Error(bytes(x)?));
+    }
+    if let Some(x) = v.get("integer") {
+        return Some(RFrame::Integer(x.as_i64()?));
+    }
+    if let Some(x) = v.get("bulk") {
+        return Some(RFrame::Bulk(bytes(x)?));
+    }
+    if let Some(x) = v.get("array") {
+        return Some(RFrame::Array(x.as_array()?.iter().filter_map(frame_from_json).collect()));
+    }
+    None
+}
+
+// ---------------------------------------------------------------------------------------------
+
+pub fn worker(job: &Job) -> Shard {
+    let mut sh = Shard::default();
+    let t0 = Instant::now();
+    match job.prop.as_str() {
+        "C07" => {
+            c07_numbers(job, &mut sh);
+            c07_deep(job, &mut sh);
+            c07_strings(job, &mut sh, t0);
+        }
+        "C08" => c08(job, &mut sh, t0),
+        p => panic!("no E4 plan for {}", p),
+    }
+    sh
+}
+
+pub fn replay(prop: &str, case: &Value) -> Vec<Violation> {
+    let mut sh = Shard::default();
+    match case["kind"].as_str().unwrap_or("") {
+        "input" => {
+            let bytes: Vec<u8> = case["bytes"].as_array().map(|a| a.iter().map(|b| b.as_u64().unwrap() as u8).collect()).unwrap_or_default();
+            for (class, msg) in judge_input(&bytes, true) {
+                viol(&mut sh, prop, &class, msg, &bytes, "replay");
+            }
+        }
+        "roundtrip" => {
+            let frames: Vec<RFrame> = case["frames"].as_array().map(|a| a.iter().filter_map(frame_from_json).collect()).unwrap_or_default();
+            // re-run the whole round-trip battery for exactly this frame sequence
+            let job = Job { prop: prop.into(), tier: Tier::Thorough, seed: 0, shard: 0, nshards: 1, outdir: "/dev/shm".into(), pass: "e4".into(), deadline_s: 600 };
+            let t0 = Instant::now();
+            let _ = &job;
+            c08_one(&frames, &mut sh, t0);
+        }
+        "deep" => {
+            let job = Job { prop: prop.into(), tier: Tier::Thorough, seed: 0, shard: 0, nshards: 1, outdir: "/dev/shm".into(), pass: "e4".into(), deadline_s: 600 };
+            c07_deep(&job, &mut sh);
+            let what = case["what"].as_str().unwrap_or("");
+            sh.violations.retain(|v| v.case["what"].as_str() == Some(what));
+        }
+        _ => {}
+    }
+    sh.violations
+}
+
+/// The C08 battery for one explicit frame sequence (replay).
+fn c08_one(frames: &[RFrame], sh: &mut Shard, _t0: Instant) {
+    let enc = match write_all(frames) {
+        Ok(e) => e,
+        Err(m) => {
+            sh.violate(Violation { class: "C08:write-fails".into(), msg: m, case: json!({"engine": "resp", "kind": "roundtrip", "frames": frames.iter().map(frame_json).collect::<Vec<_>>()}) });
+            return;
+        }
+    };
+    for k in 0..=enc.len() {
+        let (got, end) = read_all(vec![SEv::Data(enc[..k].to_vec())]);
+        if let ReadEnd::Panic(m) = &end {
+            sh.violate(Violation { class: "C08:strict-prefix-panics".into(), msg: format!("prefix {}: {} ({:?})", k, m, got), case: json!({"engine": "resp", "kind": "roundtrip", "frames": frames.iter().map(frame_json).collect::<Vec<_>>()}) });
+        } else if k < enc.len() && !matches!(end, ReadEnd::Pending) {
+            sh.violate(Violation { class: "C08:strict-prefix-reported-as-error".into(), msg: format!("prefix {}: {:?}", k, end), case: json!({"engine": "resp", "kind": "roundtrip", "frames": frames.iter().map(frame_json).collect::<Vec<_>>()}) });
+        }
+    }
+    let mut script: Vec<SEv> = enc.iter().map(|b| SEv::Data(vec![*b])).collect();
+    script.push(SEv::Eof);
+    let (got, end) = read_all(script);
+    if got != frames || end != ReadEnd::CleanEof {
+        sh.violate(Violation { class: "C08:decoded-frames-differ".into(), msg: format!("byte-wise: {:?} then {:?}", got, end), case: json!({"engine": "resp", "kind": "roundtrip", "frames": frames.iter().map(frame_json).collect::<Vec<_>>()}) });
+    }
+}
+
+pub fn report_meta(prop: &str, tier: Tier) -> (String, Value, Vec<String>) {
+    match prop {
+        "C07" => {
+            let l = tier.pick(6, 7);
+            let grid = number_grid().len();
+            (
+                format!("(a) ALL byte strings of length <= {} over the 12 symbols {:?}: check alone, parse alone, check-then-parse, and every strict prefix of every fully accepted string; (b) number grid of {} messages: carriers integer / bulk length / array length, at top level and nested after a filler of 0..40 bytes (moves the digits across absolute offset 18), signs none/+/-, 1..21 digits, values around i64::MIN/MAX, 10^19, 2^64; (c) every truncation point of every grid message and of the request set; (d) nesting depth up to 10^6 and (e) declared lengths up to 2^64-1, each in a forked child on an 8 MiB and a 2 MiB stack. Oracle: never a panic or process death; every accepted frame equals what an independent decoder (exact i128 decimal reader) gives, with the same length; check's length = parse's length; no strict prefix accepted as the same frame. Distinct+non-trivial = inputs accepted by check (strings) / grid messages / child cases.", l, String::from_utf8_lossy(ALPHA), grid),
+                json!({"max_string_length": l, "alphabet": String::from_utf8_lossy(ALPHA), "number_grid_messages": grid, "nesting_depths": [1, 2, 8, 64, 1000, 10000, 100000, 1000000]}),
+                vec!["the independent decoder mirrors the implementation's documented leniency (the byte after a CR is not inspected) and is exact on numbers".to_string(), "stack sizes: 8 MiB main thread (svr's blocking/main), 2 MiB (tokio worker default)".to_string()],
+            )
+        }
+        _ => {
+            let seqs = sequences(tier).len();
+            (
+                format!("{} frame sequences (all frame kinds; integers incl. i64::MIN/MAX; bulk strings incl. empty, CR, LF, CRLF, NUL/0xFF, 8192 and 8193 bytes; arrays of length 0..{} over 7 element kinds; sequences of 1..{} frames). Each is encoded by the real write_frame into a scripted stream (bytes must equal an independent reference encoder), then delivered back to the real read_frame under a hand-written executor: all 2^(n-1) segmentations for n <= {} bytes, else whole / byte-wise / every single cut / pairs of cuts near both ends; every placement of <= 2 Pending answers between segments; every strict prefix followed by silence (must stay incomplete after yielding the complete frames) and by EOF (must be an error unless at a frame boundary). Distinct+non-trivial = frame sequences.", seqs, tier.pick(3, 4), tier.pick(3, 4), tier.pick(14, 17)),
+                json!({"frame_sequences": seqs, "exhaustive_segmentation_up_to_bytes": tier.pick(14, 17)}),
+                vec!["nested arrays are outside 'any frame the connection can write' (write_frame has unimplemented!() for them); they are covered on the decoding side by C07".to_string()],
+            )
+        }
+    }
+}
+
+pub fn child_deep(_args: &[String]) -> i32 {
+    0
+}
+#[allow(dead_code)]
+fn _keep(_: &dyn Fn(&[u8], usize) -> Result<(Option<i128>, usize), RErr>) {
+    let _ = ref_decimal;
+}
